@@ -15,6 +15,7 @@ import multiprocessing
 
 ROOT = os.path.dirname(os.path.dirname(os.path.abspath(__file__)))
 PATH_CAP = int(os.environ.get("PYVC_PATH_CAP", "20000"))
+TASK_TIMEOUT_S = int(os.environ.get("PYVC_TASK_TIMEOUT_S", "900"))
 
 
 class Task:
@@ -77,6 +78,8 @@ def explore_task(modname, taskname):
             npaths += 1
             if npaths > PATH_CAP:
                 raise EngineError(f"path cap {PATH_CAP} exceeded in task {taskname}")
+            if time.time() - t0 > TASK_TIMEOUT_S:
+                raise EngineError(f"task {taskname} exceeded its wall-clock budget of {TASK_TIMEOUT_S}s after {npaths} paths")
             w = World(prefix, taskname)
             w.kf_active = kf_active
             w.covered = covers
